@@ -43,6 +43,7 @@ func main() {
 	sitePkgs := flag.String("site-pkgs", "gabriel-vasile/mimetype", "record branch sites in packages containing this substring")
 	budgetS := flag.Int("time-budget-s", 0, "wall-clock budget per harness")
 	verbose := flag.Bool("v", false, "verbose")
+	frontier := flag.Int("frontier-mult", 8, "breadth-first expansion stops at this many open prefixes per shard")
 	c06 := flag.Bool("c06", false, "enable access log / lock discipline check")
 	flag.Parse()
 
@@ -99,6 +100,7 @@ func main() {
 			Verbose:     *verbose,
 			C06:         *c06,
 			Fixed:       fixed,
+			FrontierMult: *frontier,
 		}
 		if *sitePkgs != "" {
 			opt.SitePkgs = []string{*sitePkgs}
